@@ -2127,6 +2127,14 @@ func (s *swamp) SaveFunction(t treasure.Treasure, guardID guard.ID) treasure.Tre
 	// and the treasure is totally new
 	if existedTreasureObj == nil {
 
+		// The caller may have obtained this object (CreateTreasure) before a concurrent
+		// DeleteTreasure/Shift marked it as deleted and removed it from beaconKey. This save
+		// re-creates the key, so the deletion mark must go: otherwise the chronicler persists
+		// this and every later save of the key as OpDelete and the record vanishes on reload.
+		if t.GetDeletedAt() > 0 {
+			t.BodySetKey(guardID, t.GetKey())
+		}
+
 		// If this key was recently deleted (e.g. via ShiftExpired), the old delete-marked
 		// treasure may still be sitting in the write buffer. We must remove it first,
 		// otherwise beacon.Add silently drops the new treasure (key already exists)
